@@ -82,6 +82,16 @@ CHECKS["C19"] = dict(
     technique="Lean 4 proof (invariant + induction over arbitrary schedules) over translator-regenerated access program + controlled-schedule correspondence",
 )
 
+CHECKS["C18"] = dict(
+    category="proof",
+    text="Lean 4 theorems about the refresh state machine for EVERY history (any base contents, any length): a full refresh leaves rollup = materialization; merge (source >=) yields the full rollup as a bag whenever the rollup agrees with it below watermark-lookback, "
+         "preserves a converged rollup and is idempotent; incremental (strict, no lookback) is a no-op without new data and converges for in-order data; the (repaired) CLI modes are instances; proved negations (late row in an old bucket, merge with a strict source, the old CLI incremental duplicating). "
+         "Tie: op-sequence correspondence of PreAggregation.refresh and the CLI on a DuckDB file vs the Lean machine after every step; per-step oracle against a fresh evaluation of the layer's own materialization statement.",
+    design_ref="DESIGN.md §4 C18",
+    note="Base rows abstracted to (bucket, value) with one additive measure; the caller's source statement is modelled as materialization restricted by a bucket predicate. DuckDB executes the real statements. CLI defect fixed in /repo (5767e28).",
+    technique="Lean 4 proof (bag equalities via List.Perm, filter/materialize commutation) + op-sequence correspondence on DuckDB",
+)
+
 NOT_APPLICABLE = {}
 
 
